@@ -45,7 +45,7 @@ var innerKinds = []string{"aimd", "vegas", "gradient", "gradient2", "settable", 
 var wrapKinds = []string{"bare", "bare", "windowed", "traced", "traced+windowed"}
 
 func TestCheck(t *testing.T) {
-	rt.Cases(2000, 400000, func(idx int64) {
+	rt.Cases(10000, 400000, func(idx int64) {
 		r := rt.CaseRand(16, idx)
 		rt.Case()
 		ik := innerKinds[r.IntN(len(innerKinds))]
